@@ -426,17 +426,12 @@ func (m *monC02) blockExpect(t *Transition, exp *expect, trs []Transfer) []Viola
 				// refunds are read off the transfers paying-escrow -> bidder (the exact payment is
 				// bounded by C04; here: 0 <= refund <= reserved, losers get everything back)
 				refund := map[string]*big.Int{}
-				for _, tr := range trs {
-					if tr.From == a.PayAddr && tr.To != a.Auctioneer && tr.To != a.VestAddr {
-						if _, ok := reserved[tr.To]; !ok {
-							bad("refund-to-stranger/"+branch, "paying escrow of auction %d paid %s to %s who has no bid", a.ID, tr.Coins, world.NameOf(tr.To))
-							continue
-						}
-						if _, ok := refund[tr.To]; !ok {
-							refund[tr.To] = new(big.Int)
-						}
-						refund[tr.To].Add(refund[tr.To], tr.Coins.Get(a.PayDenom))
+				for to, v := range payingRefunds(trs, a) {
+					if _, ok := reserved[to]; !ok {
+						bad("refund-to-stranger/"+branch, "paying escrow of auction %d paid %s to %s who has no bid", a.ID, v, world.NameOf(to))
+						continue
 					}
+					refund[to] = v
 				}
 				for b, r := range reserved {
 					rf := refund[b]
@@ -481,11 +476,7 @@ func (m *monC02) blockExpect(t *Transition, exp *expect, trs []Transfer) []Viola
 					winners++
 				}
 			}
-			for _, tr := range trs {
-				if tr.From == a.PayAddr && tr.To != a.Auctioneer && tr.To != a.VestAddr {
-					refunds++
-				}
-			}
+			refunds = len(payingRefunds(trs, a))
 			if winners > 0 && refunds > 0 {
 				m.st.Inc("settlements_with_winner_and_refund")
 			}
